@@ -2,7 +2,7 @@ import XpmVerif.Proofs.FileTokens
 /-! C09, file-based part (model M2', `Model/FileTokens.lean`): whatever way a job ends, the amount it
     held returns to the token shared by several scheduler processes, an idle token shows its full
     capacity in every process, and no release is lost for a process whose observer runs.
-    The two defects of the current source that change the token-level behaviour are parameters of the
+    The two defects (F6, F24; repaired in /repo by 27f13be and f2a7fa6) that change the token-level behaviour are parameters of the
     model (`cfg.tolerant`, `cfg.notifyMissing`, read off the real code by the check): the theorems that
     need a repair say so. -/
 namespace XpmVerif.C09Files
@@ -46,12 +46,26 @@ theorem reclaim_restores (cfg : Cfg) (s : St) (r : Reachable cfg s) (p : Proc) (
     · subst hq; exact bc_pending_new _ _ _ (by simpa using ha) (by simpa using hd)
     · exact bc_pending_new _ _ _ (by simpa [upd_other _ _ _ _ hq] using ha) (by simpa [upd_other _ _ _ _ hq] using hd)
 
-/-- a file whose job is gone can always be removed: by the release of any live process (its owner), and
-    by the reclaim of any process that watches it. -/
+/-- a token file can always be removed: by the release of any live process (its owner: after the job
+    has ended, or at once when its start is abandoned), and, once the job is gone, by the reclaim of any
+    process that watches it. -/
 theorem leftover_file_removable (s : St) (p : Proc) (f : Name) (hi : s.ipc = none)
-    (hd : (s.procs p).dropped = false) (hg : f ∉ s.active) :
-    enabled s (.release p f) = true ∧ (f ∈ (s.procs p).watch → enabled s (.reclaim p f) = true) := by
-  simp [enabled, hi, hd, hg]
+    (hd : (s.procs p).dropped = false) :
+    enabled s (.release p f) = true ∧
+    (f ∉ s.active → f ∈ (s.procs p).watch → enabled s (.reclaim p f) = true) := by
+  simp [enabled, hi, hd]; intro h1 h2; exact ⟨h2, h1⟩
+
+/-- a release ends the holding: the job is no longer counted among those that hold the token (an aborted
+    start gives the token back while its job lock is still held). -/
+theorem release_ends_holding (cfg : Cfg) (s : St) (r : Reachable cfg s) (p : Proc) (f : Name) :
+    f ∉ (apply cfg s (.release p f)).1.active := by
+  have h := reachable_inv cfg s r
+  simp only [apply, recount_cache]
+  by_cases hf : f ∈ names s.disk
+  · simp only [hf, ↓reduceIte]
+    intro hm; exact ((h.nodupActive.mem_erase_iff).mp hm).1 rfl
+  · simp only [hf, ↓reduceIte]
+    intro hm; exact hf (h.activeDisk f hm)
 
 /-- a release whose file was already reclaimed still leaves the releasing process with the exact count;
     whether it notifies is the decision point of the lost-notification finding (F24). -/
@@ -174,10 +188,10 @@ theorem observer_survives (cfg : Cfg) (s : St) (e : Ev) (p : Proc) (ht : cfg.tol
     · subst hq; simp [fresh]
     · simpa [upd_other _ _ _ _ hq] using ha
 
-/-! ### witnesses: the hypotheses are satisfiable; what fails on the current source
+/-! ### witnesses: the hypotheses are satisfiable; what failed before the repairs
     (`cfgNow`, `cfgFixed`, `evsF6`, `evsLost`, `evsOk`, `notifiesOf` are defined in `Proofs/FileTokens.lean`) -/
 
-/-- F6 on the current source (`tolerant = false`): a reachable state in which the directory is empty,
+/-- F6, before the repair (`tolerant = false`): a reachable state in which the directory is empty,
     nothing is pending, the process is not dead, and yet it shows 0 of 1 with a stale cache entry for
     ever — `idle_full` cannot be extended to a process whose observer has died. -/
 theorem observer_can_die :
@@ -194,7 +208,7 @@ example : ((run cfgFixed (init cfgFixed) evsF6).procs 1).alive = true ∧
 example : let s := run cfgFixed (init cfgFixed) (evsF6 ++ [.fsEvent 1, .fsEvent 1, .fsEvent 1])
     s.disk = [] ∧ (s.procs 1).cache = [] ∧ (s.procs 1).avail = 1 := by decide +kernel
 
-/-- F24 on the current source (`notifyMissing = false`): an enabled run that ends with an empty directory
+/-- F24, before the repair (`notifyMissing = false`): an enabled run that ends with an empty directory
     and an empty queue in which no step ever called `aio_notify()` in the releasing process. -/
 theorem release_after_reclaim_is_silent :
     allEnabled cfgNow (init cfgNow) evsLost = true ∧ (run cfgNow (init cfgNow) evsLost).disk = [] ∧
